@@ -5,6 +5,7 @@ import Flowjaxv.Proofs.Triangular
 import Flowjaxv.Proofs.NetLogDet
 import Flowjaxv.Proofs.BnafLd
 import Flowjaxv.Proofs.JaxTransforms
+import Flowjaxv.Proofs.BnafGen
 /-!
 # C02 — the log-determinant is the log-determinant
 
@@ -666,5 +667,121 @@ theorem gen_vmap_ld {κ : Type} [Inhabited κ] (v : JaxTr.Vmap κ ℝ) (x c : Ar
 
 end JaxTransformsGen
 
+/-! ## ===== BEGIN BnafGen (g15): the statements on the `BlockAutoregressiveNetwork` GENERATED from the source =====
+
+`Gen/BnafGen.lean` is re-translated from `/repo/flowjax/bijections/block_autoregressive_network.py` on every run; `Proofs/BnafGen.lean`
+proves it equal to the hand model.  `BnafGenPf.netOf A act dim bd Ls ljf condLinear inverter` is `unwrap(self)` of a network with
+the layers `Ls`, ANY log-Jacobian closures `ljf` returning `L.logJac` on their own layer, activation methods `act` / `A`, any
+inverter; `condition : Option (List ℝ)` is what the method receives (`hc`: a condition is passed exactly when there is a
+`cond_linear` — what `_unwrap_check_and_cast` and the constructor guarantee). -/
+section BnafGen
+open Masks MasksPf BnafGenPf
+
+/-- the generated `transform` equals the hand model for every scalar type, size, weight, condition and input -/
+theorem gen_bnaf_transform_eq_model (A : ℝ → ℝ × ℝ) (act : ℝ → ℝ) (dim bd : ℕ) (Ls : List (BnafLayer ℝ)) (hne : Ls ≠ [])
+    (ljf : BnafLayer ℝ → Bw.Linear ℝ → Bw.Blocks ℝ) (condLinear : Option (List (List ℝ)))
+    (inverter : List ℝ → Option (List ℝ) → List ℝ) (x : List ℝ) (condition : Option (List ℝ))
+    (hc : condition.isSome = condLinear.isSome) :
+    GenBnaf.transform (netOf A act dim bd Ls ljf condLinear inverter) x condition
+      = some (bnafTransform act Ls condLinear x (condition.getD [])) :=
+  BnafGenPf.gen_bnaf_transform_eq_model A act dim bd Ls hne ljf condLinear inverter x condition hc
+
+/-- the generated `transform_and_log_det` (fold over `enumerate(self.layers[:-1])`, `log_dets_3ds.append`, `reversed(log_dets_3ds[:-1])`
+chained through the generated `logmatmulexp`, `.sum()`) equals the hand model `bnafTransformAndLogDet` -/
+theorem gen_bnaf_fwdld_eq_model (A : ℝ → ℝ × ℝ) (act : ℝ → ℝ) {dim depth bd : ℕ} {Ls : List (BnafLayer ℝ)}
+    {condLinear : Option (List (List ℝ))} (hok : NetLawful.BnafOK dim depth bd Ls condLinear)
+    (ljf : BnafLayer ℝ → Bw.Linear ℝ → Bw.Blocks ℝ) (hljf : ∀ L ∈ Ls, ljf L (linOf L) = L.logJac)
+    (inverter : List ℝ → Option (List ℝ) → List ℝ) (x : List ℝ) (condition : Option (List ℝ))
+    (hc : condition.isSome = condLinear.isSome) :
+    GenBnaf.transformAndLogDet (netOf A act dim bd Ls ljf condLinear inverter) x condition
+      = some (bnafTransformAndLogDet A dim bd Ls condLinear x (condition.getD [])) :=
+  BnafGenPf.gen_bnaf_fwdld_eq_model A act hok ljf hljf inverter x condition hc
+
+/-- **`bnaf_logdet` on the GENERATED code**: the generated `transform` never fails and is a map `F`; at every point `v` the Fréchet
+derivative `J` of `F` exists, `det J > 0`, and the generated `transform_and_log_det` returns `(F v, log |det J|)` — every `dim`,
+depth, `block_dim ≥ 1`, all well-shaped weights, every condition, any activation with `act' > 0` reporting `log act'`. -/
+theorem gen_bnaf_logdet (A : ℝ → ℝ × ℝ) (act : ℝ → ℝ) (hfst : ∀ z, (A z).1 = act z)
+    (hact : ∀ z, DifferentiableAt ℝ act z ∧ 0 < deriv act z) (hld : ∀ z, (A z).2 = Real.log (deriv act z))
+    {dim depth bd : ℕ} {Ls : List (BnafLayer ℝ)} {condLinear : Option (List (List ℝ))}
+    (hok : NetLawful.BnafOK dim depth bd Ls condLinear)
+    (ljf : BnafLayer ℝ → Bw.Linear ℝ → Bw.Blocks ℝ) (hljf : ∀ L ∈ Ls, ljf L (linOf L) = L.logJac)
+    (inverter : List ℝ → Option (List ℝ) → List ℝ) (condition : Option (List ℝ))
+    (hc : condition.isSome = condLinear.isSome) (v : Fin dim → ℝ) :
+    ∃ F : List ℝ → List ℝ,
+      (∀ x, GenBnaf.transform (netOf A act dim bd Ls ljf condLinear inverter) x condition = some (F x)) ∧
+      ∃ J : (Fin dim → ℝ) →L[ℝ] (Fin dim → ℝ),
+        HasFDerivAt (NetLogDet.coords dim F) J v ∧ 0 < J.det ∧
+        GenBnaf.transformAndLogDet (netOf A act dim bd Ls ljf condLinear inverter) (List.ofFn v) condition
+          = some (F (List.ofFn v), some (Real.log |J.det|)) := by
+  refine ⟨fun x => bnafTransform act Ls condLinear x (condition.getD []), fun x =>
+    BnafGenPf.gen_bnaf_transform_eq_model A act dim bd Ls (bnafOK_ne_nil hok) ljf condLinear inverter x condition hc, ?_⟩
+  obtain ⟨J, h1, h2, h3⟩ := bnaf_logdet A act hfst hact hld hok (condition.getD []) v
+  exact ⟨J, h1, h2, by rw [BnafGenPf.gen_bnaf_fwdld_eq_model A act hok ljf hljf inverter _ condition hc, h3]⟩
+
+/-- **`bnaf_inverse_logdet` on the GENERATED code**: for EVERY inverter, whatever point `v` it returns, the generated
+`inverse_and_log_det` returns `(v, -log |det J(v)|)`, `J` the Fréchet derivative of the generated forward map. -/
+theorem gen_bnaf_inverse_logdet (A : ℝ → ℝ × ℝ) (act : ℝ → ℝ) (hfst : ∀ z, (A z).1 = act z)
+    (hact : ∀ z, DifferentiableAt ℝ act z ∧ 0 < deriv act z) (hld : ∀ z, (A z).2 = Real.log (deriv act z))
+    {dim depth bd : ℕ} {Ls : List (BnafLayer ℝ)} {condLinear : Option (List (List ℝ))}
+    (hok : NetLawful.BnafOK dim depth bd Ls condLinear)
+    (ljf : BnafLayer ℝ → Bw.Linear ℝ → Bw.Blocks ℝ) (hljf : ∀ L ∈ Ls, ljf L (linOf L) = L.logJac)
+    (inverter : List ℝ → Option (List ℝ) → List ℝ) (y : List ℝ) (condition : Option (List ℝ))
+    (hc : condition.isSome = condLinear.isSome) (v : Fin dim → ℝ) (hinv : inverter y condition = List.ofFn v) :
+    GenBnaf.inverse (netOf A act dim bd Ls ljf condLinear inverter) y condition = List.ofFn v ∧
+    ∃ F : List ℝ → List ℝ,
+      (∀ x, GenBnaf.transform (netOf A act dim bd Ls ljf condLinear inverter) x condition = some (F x)) ∧
+      ∃ J : (Fin dim → ℝ) →L[ℝ] (Fin dim → ℝ),
+        HasFDerivAt (NetLogDet.coords dim F) J v ∧ 0 < J.det ∧
+        GenBnaf.inverseAndLogDet (netOf A act dim bd Ls ljf condLinear inverter) y condition
+          = some (List.ofFn v, some (-(Real.log |J.det|))) := by
+  refine ⟨hinv, fun x => bnafTransform act Ls condLinear x (condition.getD []), fun x =>
+    BnafGenPf.gen_bnaf_transform_eq_model A act dim bd Ls (bnafOK_ne_nil hok) ljf condLinear inverter x condition hc, ?_⟩
+  obtain ⟨J, h1, h2, h3, _⟩ := bnaf_inverse_logdet A act hfst hact hld hok (fun y' _ => inverter y' condition) y
+    (condition.getD []) v hinv
+  exact ⟨J, h1, h2, by rw [BnafGenPf.gen_bnaf_invld_eq_model A act hok ljf hljf inverter y condition hc, h3]⟩
+
+/-- the closure `linear_to_log_block_diagonal` the generated `block_autoregressive_linear` returns, applied to the unwrapped layer, is
+the hand model's `BnafLayer.logJac` (every well-shaped layer, world, key) -/
+theorem gen_block_logjac_eq_model {K : Type} (W : Bw.World K ℝ) (key : K) (L : BnafLayer ℝ) (hL : BnafWellShaped L) :
+    (GenBnaf.blockAutoregressiveLinear W key L.n (L.b0, L.b1)).2 (linOf L) = L.logJac :=
+  BnafGenPf.gen_block_logjac_eq_model W key L hL
+
+/-- **`bnaf_logdet` on a network built ENTIRELY by generated code**: every layer's closure is the one the generated
+`block_autoregressive_linear` returns (no hypothesis on closures left), the methods are the generated ones. -/
+theorem gen_bnaf_logdet_constructed {K : Type} (W : Bw.World K ℝ) (key : BnafLayer ℝ → K)
+    (A : ℝ → ℝ × ℝ) (act : ℝ → ℝ) (hfst : ∀ z, (A z).1 = act z)
+    (hact : ∀ z, DifferentiableAt ℝ act z ∧ 0 < deriv act z) (hld : ∀ z, (A z).2 = Real.log (deriv act z))
+    {dim depth bd : ℕ} {Ls : List (BnafLayer ℝ)} {condLinear : Option (List (List ℝ))}
+    (hok : NetLawful.BnafOK dim depth bd Ls condLinear)
+    (inverter : List ℝ → Option (List ℝ) → List ℝ) (condition : Option (List ℝ))
+    (hc : condition.isSome = condLinear.isSome) (v : Fin dim → ℝ) :
+    let N := netOf A act dim bd Ls (fun L => (GenBnaf.blockAutoregressiveLinear W (key L) L.n (L.b0, L.b1)).2) condLinear inverter
+    ∃ F : List ℝ → List ℝ, (∀ x, GenBnaf.transform N x condition = some (F x)) ∧
+      ∃ J : (Fin dim → ℝ) →L[ℝ] (Fin dim → ℝ),
+        HasFDerivAt (NetLogDet.coords dim F) J v ∧ 0 < J.det ∧
+        GenBnaf.transformAndLogDet N (List.ofFn v) condition = some (F (List.ofFn v), some (Real.log |J.det|)) :=
+  gen_bnaf_logdet A act hfst hact hld hok _ (BnafGenPf.generated_closures_ok W key hok) inverter condition hc v
+
+/-- the generated `_CallableToBijection.transform_and_log_det` is `(fn z, log |fn' z|)` — the activation record
+`bnaf_logdet_callable` is about (the derivative `jax.grad` computes is a parameter of the translation) -/
+theorem gen_callable_tald (fn : Bw.DFn ℝ) (z : ℝ) :
+    GenBnaf.callableTransformAndLogDet ⟨fn⟩ z = (fn.f z, Real.log |fn.grad z|) ∧ GenBnaf.callableTransform ⟨fn⟩ z = fn.f z :=
+  ⟨by simp [GenBnaf.callableTransformAndLogDet, Bw.valueAndGrad, RealInst.jabs_eq, RealInst.log_eq], rfl⟩
+
+/-- non-vacuity: `MasksPf.bnafExample` (dim 2, depth 1, block_dim 1, weights of both signs) as a generated network with the
+DEFAULT activation `LeakyTanh(3)` (generated methods) satisfies every hypothesis of `gen_bnaf_logdet` at every point. -/
+theorem gen_bnaf_logdet_instance (v : Fin 2 → ℝ) :
+    ∃ F : List ℝ → List ℝ, ∃ J : (Fin 2 → ℝ) →L[ℝ] (Fin 2 → ℝ),
+      HasFDerivAt (NetLogDet.coords 2 F) J v ∧ 0 < J.det ∧
+      GenBnaf.transformAndLogDet (netOf (fun z => LeakyTanh.transform_and_log_det (LeakyTanh.init (3 : ℝ)) z)
+          (LeakyTanh.transform (LeakyTanh.init 3)) 2 1 bnafExample (fun L _ => L.logJac) none (fun y _ => y)) (List.ofFn v) none
+        = some (F (List.ofFn v), some (Real.log |J.det|)) := by
+  have hA := BnafLd.leakyTanh_actOK (m := 3) (by norm_num)
+  obtain ⟨F, _, J, h1, h2, h3⟩ := gen_bnaf_logdet _ _ hA.1 hA.2 hA.3 NetLawful.bnafExample_ok (fun L _ => L.logJac)
+    (fun _ _ => rfl) (fun y _ => y) none rfl v
+  exact ⟨F, J, h1, h2, h3⟩
+
+end BnafGen
+/-! ## ===== END BnafGen ===== -/
 
 end C02
